@@ -46,7 +46,7 @@ def one(job):
 
 if __name__ == '__main__':
     from sa.manifest_table import CLAIMS
-    args = [a for a in sys.argv[1:] if a != '--write']
+    args = [a for a in sys.argv[1:] if a != '--write' and not a.startswith('@')]
     write = '--write' in sys.argv[1:]
     names = []
     for n in sorted(os.listdir(os.path.join(HERE, 'seeded'))):
@@ -54,6 +54,11 @@ if __name__ == '__main__':
         if os.path.isfile(mp) and json.load(open(mp)).get('kind') == 'variant' and (not args or n in args):
             names.append(n)
     jobs = [(n, p) for n in names for p in sorted(CLAIMS)]
+    pairs = [a[1:] for a in sys.argv[1:] if a.startswith('@')]
+    if pairs:        # @file: only the (variant, property) pairs listed there, one per line (the first two columns of an earlier report)
+        want = {tuple(l.split()[:2]) for l in open(pairs[0]) if len(l.split()) >= 2}
+        jobs = [(n, p) for n in sorted({w[0] for w in want}) for p in sorted(CLAIMS) if (n, p) in want]
+        write = False
     with ProcessPoolExecutor(max_workers=16) as ex:
         res = list(ex.map(one, jobs, chunksize=2))
     by = {}
